@@ -228,7 +228,8 @@ def _strategy():
         requests=('incr', 'decr', 'set', 'restart', 'reload', 'stop',
                   'start'),
         hooks=True, exec_fail=True, children=1, kill_cmd=True,
-        signal_cmd=True, respawn_false=True, rm=True, max_ops=24)
+        signal_cmd=True, respawn_false=True, rm=True, max_ops=24,
+        set_other=True)
 
     @st.composite
     def case(draw):
